@@ -73,6 +73,12 @@ STRENGTH = {
     'C14f': '`XfrmWire.tla` `EntryLists`: `create_policies` over ordered lists of 1-3 protect entries (ESP after AH, transport after tunnel), every request byte-compared with the intent of ITS entry',
     'C15f': 'two ACQUIREs (different traffic) while each kind of request is outstanding: both wait, both are negotiated in order',
     'C17f': 'the legitimate session of `MainLoop.tla` also rekeys the IKE_SA (the daemon\'s old IKE_SA waits in REKEYED while the timer section runs); `LegitSteps = 7`',
+    'C06g': 'text content of pattern-hostile shapes (a run of one character class and a tail of another, in VENDOR / ID / NOTIFY) parsed under a wall-clock limit - work inside a regular expression is invisible to the line budget',
+    'C12g': 'a rekey request that asks for the other mode than the policy\'s (both policies), next to the rekey with other selectors',
+    'C15g': 'an ACQUIRE for an unknown policy index in three situations (no IKE_SA, an idle established one, one with a request outstanding): ignored, and afterwards the IKE_SA still answers and is still re-used',
+    'C16g': 'status queries through the real `main_loop` while the peer rekeys the IKE_SA (old IKE_SA in REKEYED) and after its DELETE',
+    'C17g': 'hostile kinds `own_delete_then_expire` / `own_rekey_then_expire` / `expire_own_child`: the daemon\'s OWN lifetime deadlines come due and, while that request is outstanding, the kernel reports an EXPIRE for a CHILD_SA it holds',
+    'C20g': 'failure scenarios with near-miss secrets on either side (the right secret with a blank / line end, one octet more / less, another letter case)',
     'C19f': '`Config.tla`: secrets with blanks / tabs / line ends at either end and of the other letter case; float values (`.inf`, `.nan`, `1.5`); the cross-key rule "not all algorithm lists empty"',
 }
 ANTICIPATED = {'C13c', 'C18c', 'C09d', 'C16d', 'C18d'}
@@ -80,7 +86,7 @@ AFTER_REPORT = {'C01e'}       # strengthened after reading the agent's report, b
 
 
 def main():
-    rows, counts = [], {1: [0, 0], 2: [0, 0], 3: [0, 0], 4: [0, 0], 5: [0, 0], 6: [0, 0]}
+    rows, counts = [], {1: [0, 0], 2: [0, 0], 3: [0, 0], 4: [0, 0], 5: [0, 0], 6: [0, 0], 7: [0, 0]}
     for p in sorted(glob.glob(os.path.join(VERIF, 'seeded', '*', 'meta.json'))):
         m = json.load(open(p))
         k = m['name']
@@ -94,7 +100,7 @@ def main():
     total = sum(c[1] for c in counts.values())
     out = ['### 0.7 Seeded changes: which check catches which change\n',
            f'{total} changes were written by fresh sub-agents (one per property and round) that saw **only the text of the property** and a scratch worktree of `/repo` -',
-           'nothing from `/verif`; rounds 2 to 6 were additionally told which ideas the earlier rounds had used and to stay away from them.  Each change compiles, leaves the',
+           'nothing from `/verif`; rounds 2 to 7 were additionally told which ideas the earlier rounds had used and to stay away from them.  Each change compiles, leaves the',
            'repository\'s test suite at 176 passed / 11 failed, comes with a demonstration (`demo_seed.py`: PASS on the original, FAIL on the change) and was confirmed by',
            '`harness/seedeval.py` in a fresh worktree before the check of its property was run on it (`VERIF_REPO=<worktree>`, quick tier).  Patch, demonstration and',
            '`meta.json` (what it needs to manifest, what was run, the outcome before and after strengthening) are in `/verif/seeded/<id>/`; none of them was ever applied to `/repo`.\n',
